@@ -261,11 +261,80 @@ def check_case(ns, res, exprs, substs, id_map, struct, fresh, mode, info,
         res.count('unchanged_but_new_list')
 
 
+def real_proposals(ns, res, r, nscripts):
+    """The simplifications that actually occur: every proposal of every
+    mutator on generated scripts, applied by the real code and by the
+    model."""
+    from vlib import dd, gen_smt, refreader, shapes
+    muts = [(c, cls()) for c, (mod, cls, opt, grp) in
+            dd.all_mutator_classes(ns).items()]
+    for k in range(nscripts):
+        pool = ['ints', 'reals', 'bv', 'fp', 'strings', 'arrays', 'dt', 'uf',
+                'let', 'quant', 'defs', 'annot']
+        g = gen_smt.Gen(r, ['core'] + r.sample(pool, r.randint(2, 6)))
+        script = g.script(nasserts=r.randint(1, 3), depth=r.randint(1, 3))
+        extra = shapes.inject_shapes(g, r, depth=1, extra=True, count=2)
+        cmds = list(script.cmds)
+        known = {id(c) for c in cmds}
+        nd = [c for c in g.commands if id(c) not in known]
+        fa = next((i for i, c in enumerate(cmds) if isinstance(c, gen_smt.Cmd)
+                   and c.items[0] == 'assert'), len(cmds))
+        cmds = cmds[:fa] + nd + [gen_smt.Cmd(['assert', t])
+                                 for t in extra] + cmds[fa:]
+        text = refreader.render(gen_smt.Script(cmds).nested())
+        exprs = list(ns.nodeio.parse_smtlib(text))
+        ns.smtlib.collect_information(exprs)
+        for node in ns.nodes.bfs(exprs):
+            for mname, m in muts:
+                try:
+                    if hasattr(m, 'filter') and not m.filter(node):
+                        continue
+                    props = []
+                    if hasattr(m, 'mutations'):
+                        props += list(m.mutations(node))[:4]
+                    if hasattr(m, 'global_mutations'):
+                        props += list(m.global_mutations(node, exprs))[:4]
+                except Exception:  # noqa
+                    continue
+                for simp in props:
+                    id_map = {}
+                    struct = []
+                    ok = True
+                    for key, val in simp.substs.items():
+                        v = None if val is None else refmodel.to_nested(val)
+                        if isinstance(key, int):
+                            id_map[key] = v
+                        else:
+                            struct.append((refmodel.to_nested(key), v))
+                    # overlaps the statement leaves open are not judged
+                    if id_map and struct:
+                        ok = False
+                    for kk, v in struct:
+                        for k2, _ in struct:
+                            if v is not None and k2 != kk and \
+                                    contains(v, k2):
+                                ok = False
+                    ids = [p for n, p in all_nodes(exprs) if n.id in id_map]
+                    if any(nested(p, q) for i, p in enumerate(ids)
+                           for q in ids[i + 1:]):
+                        ok = False
+                    if not ok:
+                        res.count('real_proposals_with_open_overlap')
+                        continue
+                    res.count('real_proposals')
+                    check_case(ns, res, exprs, dict(simp.substs), id_map,
+                               struct, list(simp.fresh_vars),
+                               f'real', {'mutator': mname})
+
+
 def shard(args):
     from vlib import dd
     ns = dd.load()
     res = common.ShardResult()
     r = common.rng('c11', args['shard'])
+    if args.get('kind') == 'real':
+        real_proposals(ns, res, r, args['n'])
+        return res.to_dict()
     for i in range(args['n']):
         items = rand_items(r)
         exprs = [refmodel.build(ns.Node, t) for t in items]
@@ -300,6 +369,8 @@ def shard(args):
 def run(ctx):
     n = 3000 if ctx.tier == 'quick' else 600000
     shards = [{'shard': i, 'n': n} for i in range(common.NCPU)]
+    shards += [{'shard': 100 + i, 'kind': 'real',
+                'n': 3 if ctx.tier == 'quick' else 150} for i in range(8)]
     results = common.run_shards('checks.c11', shards, timeout=3000)
     common.merge_shards(ctx, results)
     ctx.rule = (
@@ -310,7 +381,8 @@ def run(ctx):
         'keys on leaves / subtrees / absent keys, deletion, replacements '
         'containing their own key, swapped pairs, mixed id+structural '
         'without overlap, fresh declarations; every third case also through '
-        'substitute(Node, ...); distinct non-trivial = distinct (input, '
+        'substitute(Node, ...); plus every proposal of all 53 real mutators '
+        'on gen_smt scripts; distinct non-trivial = distinct (input, '
         'simplification) pairs')
     ctx.assumptions = [
         'overlaps between id-designated and structurally designated regions '
@@ -319,6 +391,8 @@ def run(ctx):
         'the harness hands substitute() a copy of the dict (it consumes id '
         'entries)'
     ]
+    if ctx.counters.get('real_proposals', 0) == 0:
+        ctx.inconclusive_because('no proposal of a real mutator was applied')
     for m in MODES:
         if ctx.counters.get(f'mode_{m}', 0) == 0:
             ctx.inconclusive_because(f'mode {m} never evaluated')
